@@ -28,8 +28,8 @@ def run(c):
         else:
             raise vlib.Infra("BeaconSelMC.asfound.cfg was expected to violate NoPanic\n" + r.out[-2000:])
         trace = c.scratch + "/beaconsel.ndjson"
-        args = ["-n", 4, "-len", 2, "-links", 3, "-rand", 20000] if c.thorough else \
-               ["-n", 3, "-len", 2, "-links", 3, "-rand", 1500]
+        args = ["-complete", "4:2:3,5:2:2", "-rand", 20000] if c.thorough else \
+               ["-complete", "3:2:3,4:2:2", "-rand", 1500]
         p = c.run_driver(drv, ["-out", trace] + args, timeout=3000)
         c.notes.append("driver: " + p.stdout.strip().splitlines()[-1])
     r = c.validate("BeaconSelTrace", "BeaconSelTrace.cfg", trace, timeout=3000)
@@ -56,7 +56,8 @@ def run(c):
     c.cov["rule"] = ("an evaluation is one call of the real SelectBeacons judged by TLC; non-trivial = more "
                      "candidates than k; distinct = distinct (candidate links, k). exhaustive refers to the "
                      "complete enumeration of lists of <= 3 (quick) / 4 (thorough) candidates with <= 2 links over "
-                     "3 link values and all k <= n+1; larger lists are seeded samples")
+                     "3 link values, and of <= 4 / 5 candidates over 2 link values, with all k <= n+1 (the first "
+                     "block is also the model-checked bound); larger lists are seeded samples")
     nd = r.out.count('"VERIF-DRIFT"')
     if nd:
         c.notes.append("VERIF-DRIFT lines (tie-break among equally diverse, equally long candidates): %d" % nd)
